@@ -129,17 +129,22 @@ def run(ctx):
         if b is None:
             continue
         t = res(b).ret()
-        ok = t[0] == 'call' and t[1] == BL + 'blender' and len(t[2]) == 4 and all(is_param(t[2][i], i + 1) for i in range(3)) and t[2][3][0] == 'fn'
+        # the baseline: a function of its own, or a closure (`|b, s, o| blend_channel(b, s, o, f)` built by a shared helper around the
+        # mode's channel function f) - told apart by the closure together with what it captures
+        ok = t[0] == 'call' and t[1] == BL + 'blender' and len(t[2]) == 4 and all(is_param(t[2][i], i + 1) for i in range(3)) and \
+            (t[2][3][0] == 'fn' or (t[2][3][0] == 'closure' and t[2][3][1] in fx.by_path))
         ctx.inst('W1', m, ok, '%s = %s; must be blender(backdrop, src, opacity, <baseline fn>)' % (m, show(t)), b.span, key=BL + m + '|W1')
         if ok:
-            baselines[m] = t[2][3][1]
+            baselines[m] = t[2][3][1] if t[2][3][0] == 'fn' else t[2][3]
     ctx.floor('non-Normal modes', len(baselines), 18)
     rev = {}
     for m, f in baselines.items():
         rev.setdefault(f, []).append(m)
-    for f, ms in sorted(rev.items()):
-        ctx.inst('W1', 'distinct:' + f.split('::')[-1], len(ms) == 1, 'baseline %s is used by %s (each baseline must serve exactly one mode)'
-                 % (f.split('::')[-1], ms), None, key=f + '|W1|distinct')
+    def bname(f):
+        return f.split('::')[-1] if isinstance(f, str) else show(f)[:80]
+    for f, ms in sorted(rev.items(), key=repr):
+        ctx.inst('W1', 'distinct:' + bname(f), len(ms) == 1, 'baseline %s is used by %s (each baseline must serve exactly one mode)'
+                 % (bname(f), ms), None, key=(f if isinstance(f, str) else BL + ms[0] + '#baseline') + '|W1|distinct')
 
     # blend_channel is a transparent wrapper: checked once
     bc = ctx.anchor(BL + 'blend_channel')
@@ -158,19 +163,25 @@ def run(ctx):
         okc = len(comps) == 4 and all(is_channel_plain(comps[i], i) for i in range(4))
         ctx.inst('W2', 'as_rgba_i32', okc, 'as_rgba_i32 = %s; must be the four channels of its argument in order' % show(rt)[:100], ar.span, key=ar.name + '|W2')
     for m, f in sorted(baselines.items()):
-        fb = ctx.anchor(f)
+        if isinstance(f, str):
+            fb = ctx.anchor(f)
+            o = 0
+        else:
+            fb = fx.by_path.get(f[1])       # a closure: its own parameters come after the environment
+            o = 1
+            f = BL + m + '#baseline'
         if fb is None:
             continue
         t = res(fb).ret()
         oks = []
         descr = []
         for a in alts(t):
-            if a[0] == 'call' and a[1] == BL + 'blend_channel' and all(is_param(a[2][i], i + 1) for i in range(3)):
+            if a[0] == 'call' and a[1] == BL + 'blend_channel' and all(is_param(a[2][i], i + 1 + o) for i in range(3)):
                 oks.append(bc_ok)
                 descr.append('blend_channel(backdrop, src, opacity, %s)' % show(a[2][3]))
             elif a[0] == 'call' and a[1] == BL + 'normal' and len(a[2]) == 3:
                 al = alpha_component(a[2][1])
-                ok = is_param(a[2][0], 1) and is_param(a[2][2], 3) and al is not None and is_alpha_of(al, 2)
+                ok = is_param(a[2][0], 1 + o) and is_param(a[2][2], 3 + o) and al is not None and is_alpha_of(al, 2 + o)
                 oks.append(ok)
                 descr.append('normal(backdrop, S\', opacity) with alpha(S\') = %s' % (show(al) if al is not None else 'UNKNOWN'))
             else:
